@@ -140,7 +140,7 @@ func (d *tDecoder) Decode(b []byte, base unsafe.Pointer, sd *structDesc, maxdept
 	for _, fid := range sd.requiredFieldIDs {
 		if !bs.test(fid) {
 			f := sd.GetField(fid)
-			return i, newRequiredFieldNotSetException(lookupFieldName(sd.rt, f.Offset, f.Type.RT))
+			return i, newRequiredFieldNotSetException(f.Name)
 		}
 	}
 	if ufs != nil && ufs.Size() > 0 {
